@@ -62,3 +62,117 @@ def sig_of(res, beh=None):
         ev = res["trace"][i] if 0 <= i < len(res["trace"]) else {}
         return {"kind": "rejected", "op": ev.get("op"), "after": [e["op"] for e in res["trace"][max(0, i - 3):i]]}
     return {"kind": res["status"]}
+
+
+def model_flow(prop, tier, replay, *, spec, mods, trace, mc, gens, mutators, extra_behs=None, assumptions=(),
+               need_actions=(), level="model_checking", samples_from=None, tv_quick=6000, drive_timeout=60,
+               post=None, sig_fn=None):
+    """the common flow of a model-based check:
+       mc    : list of (module, cfg) design checks
+       gens  : list of (label, module, cfg, mode, opts) ; opts: num, depth, sample (quick-tier sample size),
+               thorough_only, timeout
+       trace : (module, cfg) of the trace specification
+       extra_behs: function() -> {label: [behaviours]} generated outside TLC (judged by the trace spec)
+       post  : function(rep, work, lib, behs, results) for property-specific extras"""
+    rep = vlib.Report(prop, tier, level)
+    work = vlib.Work(prop)
+    quick = tier != "thorough"
+    lib, tbuild = vlib.build_lib(work)
+    if replay:
+        d = json.load(open(replay))
+        beh = d["replay"]
+        r = vlib.drive(work, lib, [beh], mods=mods, jobs=1)[0]
+        rej = []
+        if r["status"] == "ok":
+            acc, rej = vlib.tlc_validate(work, trace[0], trace[1], [r], shards=1)
+        bad = r["status"] != "ok" or rej
+        print(json.dumps({"status": r["status"], "mismatch": r.get("mismatch"), "stderr": r.get("stderr"),
+                          "trace_rejected_at": (rej[0].get("rejected_at") if rej else None)}, indent=1)[:3000])
+        if bad:
+            print("VIOLATION property=%s replay=%s" % (prop, replay))
+        return 1 if bad else 0
+
+    import time
+    states = trans = 0
+    mccov = {}
+    for (m, c) in mc:
+        cfgname = c
+        r = vlib.tlc_check(work, m, cfgname, timeout=3000)
+        states += r["stats"]["distinct_states"]
+        trans += r["stats"]["states_generated"]
+        for k, v in r["coverage"].items():
+            mccov[k] = mccov.get(k, 0) + v[1]
+    missing = [a for a in need_actions if mccov.get(a, 0) == 0]
+    if missing:
+        raise InfraError("vacuous model: actions never taken in any design check: %s" % missing)
+    glist = {}
+    for g in gens:
+        label, m, c, mode = g[0], g[1], g[2], g[3]
+        o = g[4] if len(g) > 4 else {}
+        if o.get("thorough_only") and quick:
+            continue
+        if o.get("quick_only") and not quick:
+            continue
+        b, st, _ = vlib.tlc_generate(work, m, c, work.path("gen_%d.ndjson" % len(glist)), mode=mode,
+                                     num=(o.get("num_quick", 1000) if quick else o.get("num", 20000)),
+                                     depth=o.get("depth", 25), timeout=o.get("timeout", 2400))
+        b = load_gen(b)
+        if quick and o.get("sample") and len(b) > o["sample"]:
+            b = sample(b, o["sample"], len(glist))
+            label += " (sample of %d)" % st["states_generated"]
+        glist[label] = b
+    if extra_behs:
+        for k, v in extra_behs().items():
+            glist[k] = v
+    behs = []
+    for k, v in glist.items():
+        behs += v
+    number(behs)
+    byid = {b["id"]: b for b in behs}
+    t = time.time()
+    res = vlib.drive(work, lib, behs, mods=mods, timeout=drive_timeout)
+    tdrive = time.time() - t
+    bad = [r for r in res if r["status"] != "ok"]
+    okres = [r for r in res if r["status"] == "ok"]
+    tv = sample(okres, tv_quick, 99) if quick else okres
+    t = time.time()
+    acc, rej = vlib.tlc_validate(work, trace[0], trace[1], tv, timeout=3000)
+    tval = time.time() - t
+    seen = set()
+    for r in bad + rej:
+        beh = byid[r["id"]]
+        sig = sig_of(r)
+        if sig_fn:
+            sig = sig_fn(sig, r, beh) or sig
+        key = json.dumps(sig, sort_keys=True)
+        if key in seen:
+            continue
+        seen.add(key)
+        r2 = confirm(work, lib, beh, mods)
+        again = r2["status"] != "ok"
+        if not again and "rejected_at" in r:
+            a, rj = vlib.tlc_validate(work, trace[0], trace[1], [r2], shards=1, tag="cf")
+            again = bool(rj)
+        if again:
+            rep.violation(sig, beh)
+    nt = set(vlib.beh_key(b) for b in behs if nontrivial(b, mutators))
+    mid = behs[len(behs) // 2]["steps"] if behs else []
+    rep.cov.update({
+        "states": states, "transitions": trans, "traces_validated_against_impl": acc,
+        "evaluations": len(behs), "distinct_nontrivial": len(nt),
+        "behaviours_replayed": len(res), "replay_ok": len(okres),
+        "generators": {k: len(v) for k, v in glist.items()},
+        "rule": "behaviours generated by TLC from specs/%s (transition cover / bounded-exhaustive histories with an audit epilogue / "
+                "-simulate) and replayed on the library built from /repo under ASan; distinct = hash of the (op,args) sequence; "
+                "non-trivial = at least one state-changing call after the first and one compared observation" % spec,
+        "samples": [behs[0]["steps"][:6] if behs else [], mid[:10], behs[-1]["steps"][:10] if behs else []],
+        "exhaustive": True,
+        "checker_cmd": "tlc %s ; tlc Gen ; harness/drive.py ; tlc %s" % (", ".join(c for _, c in mc), trace[0]),
+        "trusted_base": ["TLC", "harness/drive.py + %s (ctypes call table)" % mods, "ASan/UBSan runtime"],
+        "mc_coverage": mccov,
+        "timing_s": {"build": round(tbuild, 1), "drive": round(tdrive, 1), "validate": round(tval, 1)},
+    })
+    rep.assumptions += list(assumptions)
+    if post:
+        post(rep, work, lib, behs, res)
+    return rep.finish()
